@@ -278,6 +278,44 @@ theorem for_counter_spec (counter step : Nat) (hc : counter < 65536) (hs : step 
     (¬ InRange (toInt counter + toInt step) → iadd counter step = .error overflow) :=
   iadd_spec counter step hc hs
 
+/-- FOR operands are fixed when FOR is executed: whatever the loop body assigns to the variables and array
+    elements that were named as start, limit or step (any assignments `asg`, from any pass `frm` on, any store
+    `env`), the loop runs exactly as the loop over the three values read at FOR time.  So the counter of
+    `FOR I%=a TO b STEP S%` advances by `for_counter_spec`'s exact addition of the *initial* `S%`. -/
+theorem forRunEnv_eq (asg : List ForAssign) (frm fuel n : Nat) (env : List Nat) (c stop step : Nat) (acc : List Nat) :
+    forRunEnv asg frm fuel n env c stop step acc = forRun fuel c stop step acc := by
+  induction fuel generalizing n env c acc with
+  | zero => simp [forRunEnv, forRun]
+  | succ k ih =>
+    unfold forRunEnv forRun
+    by_cases hk : k = 0
+    · simp [hk]
+    · simp only [hk, if_false]
+      cases h : nextStep c stop step with
+      | error e => rfl
+      | ok p =>
+        obtain ⟨c', fin⟩ := p
+        cases fin with
+        | true => rfl
+        | false => exact ih _ _ _ _
+
+theorem for_operands_captured (asg : List ForAssign) (frm fuel : Nat) (env : List Nat) (a b s : ForOperand) :
+    forLoopEnv asg frm fuel env a b s = forLoop fuel (a.eval env) (b.eval env) (s.eval env) := by
+  unfold forLoopEnv forLoop
+  simp only [forRunEnv_eq]
+
+/-- a FOR record that keeps the step *variable* instead of a copy of its value violates the property:
+    `S%=2: FOR I%=0 TO 10 STEP S%: S%=5: NEXT` would visit 0,5,10 instead of 0,2,4,6,8,10, and
+    `S%=10: FOR I%=1 TO 30 STEP S%: S%=32767: NEXT` would raise Overflow at the first NEXT although
+    1+10 is in range -/
+theorem forLive_counterexample :
+    forLoopLive [⟨0, false, 5⟩] 1 12 [2] (.lit 0) (.lit 10) (.var 0) = ([0, 5, 10], "end 15") ∧
+    forLoopEnv [⟨0, false, 5⟩] 1 12 [2] (.lit 0) (.lit 10) (.var 0) = ([0, 2, 4, 6, 8, 10], "end 12") ∧
+    forLoopLive [⟨0, false, 32767⟩] 1 12 [10] (.lit 1) (.lit 30) (.var 0) = ([1], "err 6") ∧
+    forLoopEnv [⟨0, false, 32767⟩] 1 12 [10] (.lit 1) (.lit 30) (.var 0) = ([1, 11, 21], "end 31") ∧
+    InRange (toInt 1 + toInt 10) := by
+  decide +kernel
+
 /-! non-vacuity: concrete non-trivial instances of the hypotheses and both branches -/
 example : iadd 32767 1 = .error overflow ∧ iadd 65535 65535 = .ok 65534 ∧ iadd 255 1 = .ok 256 := by decide
 example : idivInt 32768 65535 = .error overflow ∧ idivInt 65529 2 = .ok 65533 ∧ idivInt 7 0 = .error divZero := by
